@@ -732,6 +732,12 @@ func OpenWith(path string, vLogs []appendable.Appendable, txLog, cLog appendable
 		}
 	}
 
+	err = store.dropStaleBinaryLinkingTail(precommittedTxID)
+	if err != nil {
+		store.Close()
+		return nil, fmt.Errorf("binary-linking validation failed: %w", err)
+	}
+
 	if store.aht.Size() == precommittedTxID {
 		store.logger.Infof("binary-linking up to date at '%s'", store.path)
 	} else {
@@ -1242,6 +1248,49 @@ func (s *ImmuStore) precommittedAlh() (uint64, [sha256.Size]byte) {
 	defer s.commitStateRWMutex.RUnlock()
 
 	return s.inmemPrecommittedTxID, s.inmemPrecommittedAlh
+}
+
+// dropStaleBinaryLinkingTail cuts the binary-linking tree back to the largest size the
+// transaction log vouches for. A recovery that loses in-flight transactions resets the tree
+// to the recovered size, but their leaves stay in the tree's files beyond that size. If the
+// process stops again before the leaves appended since then are flushed, the tree reopens
+// holding the old leaves for the new transaction ids, is not behind the transaction log and
+// would never be rebuilt: every proof it then serves is wrong. Each transaction records the
+// root of the tree it was linked to (BlTxID, BlRoot): the tree is reset to the most recent
+// of those roots it still reproduces and the leaves above it are appended again from the log.
+func (s *ImmuStore) dropStaleBinaryLinkingTail(precommittedTxID uint64) error {
+	txID := s.aht.Size() + 1
+	if txID > precommittedTxID {
+		txID = precommittedTxID
+	}
+
+	for ; txID > 0; txID-- {
+		hdr, err := s.ReadTxHeader(txID, true, true)
+		if err != nil {
+			return err
+		}
+
+		if hdr.BlTxID > s.aht.Size() {
+			continue
+		}
+
+		var blRoot [sha256.Size]byte
+
+		if hdr.BlTxID > 0 {
+			blRoot, err = s.aht.RootAt(hdr.BlTxID)
+			if err != nil {
+				return err
+			}
+		}
+
+		if blRoot == hdr.BlRoot {
+			return s.aht.ResetSize(hdr.BlTxID)
+		}
+
+		s.logger.Warningf("binary-linking at '%s' does not reproduce the root recorded by tx %d, its latest entries will be rebuilt", s.path, txID)
+	}
+
+	return nil
 }
 
 func (s *ImmuStore) syncBinaryLinking() error {
